@@ -343,6 +343,10 @@ def r5_sibling_drivers(cx):
         ys = [y for y in walk_body(lp.body) if isinstance(y, ast.Yield)]
         ok = isinstance(lp.iter, ast.Call) and call_attr(lp.iter) == "get_subgraphs" and len(ys) == 1 and isinstance(ys[0].value, ast.Tuple) \
             and U(ys[0].value.elts[0]) == U(lp.target) and not guard_texts(ys[0], stop=lp) and not has_exit(lp.body)
+        # the sub-graph is yielded as get_subgraphs produced it: not rebound (filtered, rebuilt) inside the loop
+        ok = ok and isinstance(lp.target, ast.Name) and not assigns_to(lp.body, lp.target.id) \
+            and not [x for x in find_calls(lp.body) if call_attr(x) in ("pop", "clear", "update", "popitem", "setdefault") and U(x.func.value) == lp.target.id] \
+            and not [x for x in walk_body(lp.body) if isinstance(x, (ast.Delete, ast.Assign)) and any(isinstance(t, ast.Subscript) and U(t.value) == lp.target.id for t in (x.targets))]
         if ok:
             gsrc = trace(lp.iter.args[0], gi) if lp.iter.args else None
             ok = lp.iter.args and U(lp.iter.args[0]) == "components"
